@@ -20,6 +20,8 @@ replacement from the hostile vocabulary:
               cannot advance time by definition, and 1 ns periods have dedicated builders)
     count     1, 2, 3, 5, 9, 10, 11, 12
     prob      0.0, 1.0
+    guarded   (table GUARDED: parameters the library itself guards with `> 0` / `<= 0`) additionally -1 and -1 ns;
+              no other parameter ever gets a negative value
 
 `CtorMutator(plan)` (pass 2) applies them; a replacement the constructor rejects
 (ValueError / TypeError / ...) is rolled back to the original value and reported as
@@ -117,6 +119,24 @@ USE_OVERRIDES: dict[tuple[str, str], str] = {
 # ConsumerGroup.rebalance_delay, GC pauses.  Everything named interval / period / tick / heartbeat is periodic by name.
 
 
+# Parameters for which the library itself gives zero / negative values a meaning ("<= 0 disables", "-1 = no timeout")
+# through an explicit guard (`if self.<param> > 0:` / `if self.<param> <= 0: return`): only these also get negative
+# replacements (-1 and -1 ns).  Arbitrary negative latencies stay outside the vocabulary ("non-zero latencies").
+# From `grep -E "self\.[_a-z]+ (>|<=) 0"` over components (7d1a913); a constructor that rejects the value rolls it back.
+#   class            parameter                 guard                                             kind
+GUARDED: dict[tuple[str, str], str] = {
+    ("BatchProcessor", "timeout_s"): "guarded",               # handle_event: `... and self.timeout_s > 0`
+    ("APIGateway", "auth_latency"): "guarded",                # _handle_request_with_auth: `if self._auth_latency > 0`
+    ("OutboxRelay", "relay_latency"): "guarded",              # _handle_poll: `if self._relay_latency > 0` (ctor rejects < 0)
+    ("Agent", "action_delay"): "guarded",                     # `if self.action_delay > 0`
+    ("Agent", "heartbeat_interval"): "guarded-periodic",      # `if self.heartbeat_interval > 0` / `<= 0: return`
+    ("LeaderNode", "anti_entropy_interval"): "guarded-periodic",  # get_anti_entropy_event: `<= 0 or not peers` -> None
+    ("CRDTStore", "gossip_interval"): "guarded-periodic",     # get_gossip_event: `<= 0 or not peers` -> None
+}
+GUARDED_CHOICES = ("neg1", "negns", "zero", "ns", 0.0003, 0.3, "x7", "/7")
+GUARDED_PERIODIC_CHOICES = ("neg1", "negns", "zero", 0.0003, 0.3, "x7", "/7")  # <= 0 disables the timer: allowed
+
+
 def kind_of(param: str, value, cls: str | None = None) -> str | None:
     if isinstance(value, bool) or not isinstance(value, (int, float)):
         return None
@@ -124,6 +144,8 @@ def kind_of(param: str, value, cls: str | None = None) -> str | None:
         return None
     if value != value or value in (float("inf"), float("-inf")):
         return None
+    if cls is not None and (cls, param) in GUARDED:
+        return GUARDED[(cls, param)]
     if cls is not None and (cls, param) in USE_OVERRIDES:
         return USE_OVERRIDES[(cls, param)]
     if _PROB_RE.search(param):
@@ -146,7 +168,11 @@ def replacement(kind: str, value, choice):
         new = float(choice)
     else:
         v = float(value)
-        if choice == "zero":
+        if choice == "neg1":
+            new = -1.0
+        elif choice == "negns":
+            new = -1e-9
+        elif choice == "zero":
             new = 0.0
         elif choice == "ns":
             new = 1e-9
@@ -204,7 +230,7 @@ class _Interposer:
                     step = me.plan.get(ordinal)
                     if step is not None and step.get("cls") == cls.__name__ and step.get("param") == pname:
                         new = step["value"]
-                        if k == "periodic" and float(new) < 2e-9:
+                        if (k == "periodic" and float(new) < 2e-9) or (k == "guarded-periodic" and 0 < float(new) < 2e-9):
                             # an explicit (older) plan asks for a zero / 1 ns period: outside the vocabulary
                             me.applied.append({"ordinal": ordinal, "cls": cls.__name__, "param": pname, "from": val, "to": new,
                                                "kind": k, "rejected": "zero / 1 ns period is outside the mutation vocabulary"})
@@ -276,7 +302,10 @@ def plan_mutations(sites: list[dict], seed: int, k: int = 1) -> dict:
         # mutate every instance of the pair half of the time (all replicas alike), else one of them
         chosen = inst if rng.random() < 0.5 else [rng.choice(inst)]
         kind = chosen[0]["kind"]
-        choices = {"time": TIME_CHOICES, "periodic": PERIODIC_CHOICES, "count": COUNT_CHOICES, "prob": PROB_CHOICES}[kind]
+        choices = {
+            "time": TIME_CHOICES, "periodic": PERIODIC_CHOICES, "count": COUNT_CHOICES, "prob": PROB_CHOICES,
+            "guarded": GUARDED_CHOICES, "guarded-periodic": GUARDED_PERIODIC_CHOICES,
+        }[kind]  # fmt: skip
         choice = rng.choice(choices)
         for s in chosen:
             new = replacement(kind, s["value"], choice)
@@ -290,3 +319,36 @@ def build_mutated(build, plan: dict):
     with _Interposer(plan) as ip:
         sc = build()
     return sc, ip.applied
+
+
+# ----------------------------------------------------------------------
+# derived scenarios: an existing builder with fixed constructor values
+
+
+def derive(base: str, overrides: dict[tuple[str, str], float], doc: str = ""):
+    """Builder that builds catalogue scenario `base` with every construction site of the given
+    (class, parameter) pairs replaced by a fixed value (rolled back where the constructor rejects it).
+
+        derive("industrial.batch_processor_timeout", {("BatchProcessor", "timeout_s"): -1.0})
+    """
+
+    def builder(seed, params):
+        from hsverif.scenarios import CATALOGUE
+
+        def build():
+            return CATALOGUE[base](seed, params)
+
+        sites = record_sites(build)
+        plan = {
+            str(s["ordinal"]): {"cls": s["cls"], "param": s["param"], "value": overrides[(s["cls"], s["param"])], "choice": "derived"}
+            for s in sites
+            if (s["cls"], s["param"]) in overrides and overrides[(s["cls"], s["param"])] != s["value"]
+        }
+        sc, applied = build_mutated(build, plan)
+        sc.notes = (sc.notes + " " if sc.notes else "") + f"derived from {base}: {[(a['cls'], a['param'], a['to'], a.get('rejected')) for a in applied]}"
+        sc.extras = dict(sc.extras or {}, derived_from=base, derived_applied=applied)
+        return sc
+
+    builder.__name__ = "derived_" + base.replace(".", "_")
+    builder.__doc__ = doc or f"{base} with {overrides}"
+    return builder
